@@ -143,6 +143,9 @@ func (e *Env) HarnessError(format string, args ...interface{}) {
 // Eps is the slack the simulator itself injected so far (timer lateness, spin-guard jumps).
 func (e *Env) Eps() time.Duration { return e.S.LateTotal() }
 
+// EpsIn is the slack that can have held up library actions between t0 and t1 (see simrt.SlackBetween).
+func (e *Env) EpsIn(t0, t1 time.Duration) time.Duration { return e.S.SlackBetween(t0, t1) }
+
 // Execute runs one simulated execution. A run that exhausts its step budget is executed again
 // with four times the budget: if it still does not finish, the system makes no progress (a
 // goroutine spinning through scheduling points, e.g. a select loop on a closed channel whose
